@@ -280,3 +280,22 @@ def run(tier, seed, escalate=False):
 
 
 replay = P.replay
+
+
+# ------------------------------------------------------------------ the same numbers stored in another dtype
+from oracles import dtype_independence, merge_oracle
+from common import np, dnp
+from dnplab.math import relaxation as _R
+DTYPE_CASES = [("fit-t1", lambda d, dim: dnp.fit(_R.t1, d, dim, (1.0, -3.0, 3.0)), "t2"),
+    ("fit-general_exp", lambda d, dim: dnp.fit(_R.general_exp, d, dim, (0.0, 2.0, 5.0)), "t2"),
+    ("fit-t1-grid", lambda d, dim: dnp.fit(_R.t1, d, dim, (1.0, -3.0, 3.0), fit_points=11), "t2"),
+    ("fit-line", lambda d, dim: dnp.fit(lambda x, a, b: a * x + b, d, dim, (1.0, 0.0)), "t2")]
+_run_before_dtype = run
+
+
+def run(tier, seed, escalate=False):
+    """… plus: integer / single-precision / complex storage of the values and integer / unsigned / single-precision storage of
+    the processed axis give the result of the float64 object (a dtype the function refuses is not judged)"""
+    res = _run_before_dtype(tier, seed, escalate)
+    f, n = dtype_independence("C18", DTYPE_CASES, seed, dim_positions=(1,) if tier == "quick" and not escalate else (0, 1, 2))
+    return merge_oracle(res, f, n, "storage_dtype_variants")
